@@ -497,6 +497,60 @@ def do_op(lab, side, op, content):
         return ("failed", op, type(e).__name__)
 
 
+def apply_op(lab, side, kind, src, dst=None, content=None):
+    """explicit-path user operation through the public Provider API; returns a descriptor like do_op"""
+    p = lab.p[side]
+    root = lab.roots[side]
+
+    def info(n):
+        return p.info_path(root + n)
+
+    def fl(c):
+        return io.BytesIO(c) if isinstance(c, bytes) else TokFile(c)
+
+    def run():
+        i = info(src)
+        if kind == "create":
+            par = src.rsplit("/", 1)[0]
+            if i or (par and not info(par)):
+                return ("noop", kind, src)
+            p.create(root + src, fl(content))
+            return ("create", src, content)
+        if kind == "write":
+            if not i or i.otype.value != "file":
+                return ("noop", kind, src)
+            p.upload(i.oid, fl(content))
+            return ("write", src, content)
+        if kind == "delete":
+            if not i or i.otype.value != "file":
+                return ("noop", kind, src)
+            p.delete(i.oid)
+            return ("delete", src)
+        if kind == "mkdir":
+            par = src.rsplit("/", 1)[0]
+            if i or (par and not info(par)):
+                return ("noop", kind, src)
+            p.mkdir(root + src)
+            return ("mkdir", src)
+        if kind == "rmdir":
+            if not i or i.otype.value != "dir" or list(p.listdir(i.oid)):
+                return ("noop", kind, src)
+            p.delete(i.oid)
+            return ("rmdir", src)
+        if kind in ("rename", "rendir"):
+            want = "file" if kind == "rename" else "dir"
+            dpar = dst.rsplit("/", 1)[0]
+            if not i or i.otype.value != want or info(dst) or (dpar and not info(dpar)):
+                return ("noop", kind, src, dst)
+            p.rename(i.oid, root + dst)
+            return (kind, src, dst)
+        raise ValueError(kind)
+    try:
+        return lab.user(run)
+    except CloudException as e:
+        return ("failed", kind, src, type(e).__name__)
+
+
 class TokFile:
     """file-like whose whole content is one opaque token"""
 
